@@ -386,3 +386,136 @@ def settings_wiring(ctx: Ctx, rule: str, module_name: str, min_sites=1):
     if n < min_sites:
         raise Incomplete(f"{module_name}: {n} settings factories found ({min_sites} expected)")
     return n
+
+
+# ----------------------------------------------------------------- matching modulo names of locals
+
+def locals_of(scope: Scope) -> set:
+    """Names bound inside `scope` (assignment / for / with / comprehension / lambda-argument targets of the scope itself and of
+    its nested lambdas and comprehensions), i.e. everything a harmless rename could touch.  Parameters are not included."""
+    out = set()
+    params = set(scope.params()) | set(scope.kwonly()) if hasattr(scope, "params") and scope.kind in ("function", "lambda") else set()
+    for n in ast.walk(scope.node):
+        if isinstance(n, ast.Name) and isinstance(n.ctx, ast.Store):
+            out.add(n.id)
+        elif isinstance(n, ast.Lambda) and n is not scope.node:
+            out.update(a.arg for a in n.args.args)
+        elif isinstance(n, ast.FunctionDef) and n is not scope.node:
+            out.update(a.arg for a in n.args.args)
+    return out - params
+
+
+class Unifier:
+    """Structural matching of code against a template written with today's local names: names of locals are pattern variables
+    (bound injectively, consistently over the lifetime of the Unifier), everything else must be equal.  + and * commute."""
+
+    def __init__(self, scope: Scope, extra_locals=()):
+        self.scope = scope
+        self.locals = locals_of(scope) | set(extra_locals)
+        self.bind = {}      # template name -> actual name
+
+    def actual(self, tname: str) -> str:
+        return self.bind.get(tname, tname)
+
+    def match(self, actual, template, bind=None) -> bool:
+        if isinstance(template, str):
+            template = ast.parse(template, mode="eval").body
+        if isinstance(actual, str):
+            actual = ast.parse(actual, mode="eval").body
+        b = dict(self.bind)
+        if self._m(actual, template, b):
+            self.bind = b
+            return True
+        return False
+
+    # ---- internals
+    def _name(self, a: str, t: str, b: dict) -> bool:
+        if a in self.locals or t in b:
+            if t in b:
+                return b[t] == a
+            if a in b.values():
+                return False
+            if a not in self.locals:
+                return False
+            b[t] = a
+            return True
+        return a == t
+
+    @staticmethod
+    def _flat(e, op):
+        if isinstance(e, ast.BinOp) and isinstance(e.op, op):
+            return Unifier._flat(e.left, op) + Unifier._flat(e.right, op)
+        return [e]
+
+    def _m(self, a, t, b) -> bool:
+        if isinstance(t, ast.Name):
+            return isinstance(a, ast.Name) and self._name(a.id, t.id, b)
+        if type(a) is not type(t):
+            # 1 vs 1.0 etc. are both Constant; a - b vs a + (-b) are not unified (templates follow the code's spelling)
+            return False
+        if isinstance(t, ast.Constant):
+            return a.value == t.value and type(a.value) in (type(t.value), int, float) and not (isinstance(a.value, bool) ^ isinstance(t.value, bool))
+        if isinstance(t, ast.BinOp) and isinstance(t.op, (ast.Add, ast.Mult)) and type(a.op) is type(t.op):
+            ta, aa = self._flat(t, type(t.op)), self._flat(a, type(a.op))
+            if len(ta) != len(aa):
+                return False
+            if len(ta) > 5:
+                return all(self._m(x, y, b) for x, y in zip(aa, ta))
+            import itertools
+            for perm in itertools.permutations(range(len(aa))):
+                b2 = dict(b)
+                if all(self._m(aa[perm[i]], ta[i], b2) for i in range(len(ta))):
+                    b.clear()
+                    b.update(b2)
+                    return True
+            return False
+        if isinstance(t, ast.arg):
+            return self._name(a.arg, t.arg, b)
+        if isinstance(t, ast.AST):
+            for f in t._fields:
+                if f in ("ctx", "type_comment", "kind"):
+                    continue
+                va, vt = getattr(a, f, None), getattr(t, f, None)
+                if isinstance(vt, list):
+                    if not isinstance(va, list) or len(va) != len(vt):
+                        return False
+                    for x, y in zip(va, vt):
+                        if not self._mv(x, y, b):
+                            return False
+                elif not self._mv(va, vt, b):
+                    return False
+            return True
+        return a == t
+
+    def _mv(self, x, y, b):
+        if isinstance(y, ast.AST):
+            return isinstance(x, ast.AST) and self._m(x, y, b)
+        return x == y
+
+    # ---- statement lookup by role
+    def assigns(self, value_template=None, target=None):
+        """Assign statements of the scope (not of nested functions) whose value matches the template; `target` is the template
+        name of the assigned variable (bound as a side effect)."""
+        out = []
+        for st in walk_local(self.scope.node):
+            if not isinstance(st, ast.Assign) or len(st.targets) != 1:
+                continue
+            b = dict(self.bind)
+            ok = True
+            if value_template is not None:
+                tv = ast.parse(value_template, mode="eval").body if isinstance(value_template, str) else value_template
+                ok = self._m(st.value, tv, b)
+            if ok and target is not None:
+                tt = ast.parse(target, mode="eval").body if isinstance(target, str) else target
+                ok = self._m(st.targets[0], tt, b)
+            if ok:
+                out.append((st, b))
+        if len(out) == 1:
+            self.bind = out[0][1]
+        return [st for st, _ in out]
+
+    def def_of(self, tname: str):
+        """Assign statements whose target is the local bound to template name `tname` (bind it first through a match)."""
+        a = self.actual(tname)
+        return [st for st in walk_local(self.scope.node) if isinstance(st, ast.Assign) and len(st.targets) == 1
+                and isinstance(st.targets[0], ast.Name) and st.targets[0].id == a]
